@@ -198,6 +198,147 @@ theorem mortar_after_split (s : Host) (hv : s.Valid) (i nLow : Nat) (hi : i < s.
       · rintro ⟨hl, hor⟩
         exact ((hg l hl).2.2 g hgc).mpr hor
 
+/-! ### structured generators (`fracs/structured.py`): index arithmetic -/
+
+/-- `nodes_on_line_eq`: `_find_nodes_on_line` between the nodes `a` and `a + m·e_axis` of a tensor
+    grid with `nx × ny (× nz)` cells — for ALL `nx`, `ny`, either order of the end points and each of
+    the three directions — returns the nodes `a + t·e_axis`, `t = 0..m`, in this order. -/
+theorem nodes_on_line_eq (nx ny axis : Nat) (a : T3) (m : Nat) :
+    findNodesOnLine nx ny axis (idx3 nx ny a) (idx3 nx ny (shift axis a m))
+      = (List.range (m + 1)).map (fun t => idx3 nx ny (shift axis a t)) ∧
+    findNodesOnLine nx ny axis (idx3 nx ny (shift axis a m)) (idx3 nx ny a)
+      = (List.range (m + 1)).map (fun t => idx3 nx ny (shift axis a t)) :=
+  findNodesOnLine_eq nx ny axis a m
+
+/-- the node numbering `(i, j, k) ↦ i + j (nx+1) + k (nx+1)(ny+1)` is injective on the grid -/
+theorem node_index_injective (nx ny : Nat) (a b : T3) (ha : InGrid nx ny a) (hb : InGrid nx ny b)
+    (h : idx3 nx ny a = idx3 nx ny b) : a = b :=
+  idx3_inj nx ny ha hb h
+
+/-- `nodes_on_line_exact`: a grid node belongs to the result iff it lies on the segment. -/
+theorem nodes_on_line_exact (nx ny axis : Nat) (a b : T3) (m : Nat)
+    (ha : InGrid nx ny (shift axis a m)) (hb : InGrid nx ny b) :
+    idx3 nx ny b ∈ findNodesOnLine nx ny axis (idx3 nx ny a) (idx3 nx ny (shift axis a m)) ↔
+      ∃ t, t ≤ m ∧ b = shift axis a t :=
+  mem_findNodesOnLine nx ny axis a b m ha hb
+
+/-- `plane_faces_exact`: the faces `_create_lower_dim_grids_3d` tags for an axis-aligned rectangle
+    on a grid plane (half-space test with the edge normals as coded, any of the eight vertex orders,
+    plus the tolerance test in the normal direction) are exactly the grid faces of the right kind
+    lying in the rectangle — for all grid sizes and all strictly increasing node coordinates. -/
+theorem plane_faces_exact (g : Grid3) (o k0 a0 a1 b0 b1 : Nat) (p tol : Rat) (P : List (Rat × Rat))
+    (h : g.PlaneSpec o k0 a0 a1 b0 b1 p tol P) (x : Nat) :
+    x ∈ g.planeFaces o p tol P ↔ ∃ f : Nat × T3, g.ValidFace f ∧ f.1 = o ∧ f.2.get o = k0 ∧
+      (a0 ≤ f.2.get (activeDims o).1 ∧ f.2.get (activeDims o).1 < a1) ∧
+      (b0 ≤ f.2.get (activeDims o).2 ∧ f.2.get (activeDims o).2 < b1) ∧ x = g.faceIndex f :=
+  mem_planeFaces h x
+
+/-- `plane_nodes_exact`: the nodes of the fracture grid (`np.unique` of the nodes of the tagged faces)
+    are exactly the grid nodes lying on the rectangle. -/
+theorem plane_nodes_exact (g : Grid3) (o k0 a0 a1 b0 b1 : Nat) (p tol : Rat) (P : List (Rat × Rat))
+    (h : g.PlaneSpec o k0 a0 a1 b0 b1 p tol P) (n : Nat) :
+    n ∈ g.planeNodes o p tol P ↔ ∃ c : T3, c.get o = k0 ∧
+      (a0 ≤ c.get (activeDims o).1 ∧ c.get (activeDims o).1 ≤ a1) ∧
+      (b0 ≤ c.get (activeDims o).2 ∧ c.get (activeDims o).2 ≤ b1) ∧ n = idx3 (g.n 0) (g.n 1) c :=
+  mem_planeNodes h n
+
+/-- a 2 × 3 × 4 grid of unit cells -/
+def exGrid : Grid3 := { n := fun c => match c with | 0 => 2 | 1 => 3 | _ => 4, x := fun _ i => (i : Rat) }
+
+/-- the fracture `y = 2`, `x ∈ [0, 2]`, `z ∈ [1, 3]`, corners listed clockwise starting at `(2, 1)` -/
+theorem exGrid_plane : exGrid.PlaneSpec 1 2 0 2 1 3 2 (1 / 10) [(2, 1), (0, 1), (0, 3), (2, 3)] where
+  ho := by decide
+  mono := by
+    intro c a b _ hab _
+    show ((a : Nat) : Rat) < (b : Nat)
+    exact_mod_cast hab
+  hk := by decide
+  hp := by show (2 : Rat) = ((2 : Nat) : Rat); norm_num
+  htol := by norm_num
+  hgap := by
+    intro i _
+    show (1 / 10 : Rat) < ((((i + 1 : Nat) : Rat)) - ((i : Nat) : Rat)) / 2
+    push_cast; norm_num
+  ha := by decide
+  hb := by decide
+  rect := by
+    unfold IsRectOrder
+    right; right; right; right; right; right; left
+    show _ = [((((2 : Nat) : Rat)), (((1 : Nat) : Rat))), (((0 : Nat) : Rat), ((1 : Nat) : Rat)),
+      (((0 : Nat) : Rat), ((3 : Nat) : Rat)), (((2 : Nat) : Rat), ((3 : Nat) : Rat))]
+    norm_num
+
+example : exGrid.planeFaces 1 2 (1 / 10) [(2, 1), (0, 1), (0, 3), (2, 3)] = [48, 49, 56, 57] ∧
+    exGrid.planeNodes 1 2 (1 / 10) [(2, 1), (0, 1), (0, 3), (2, 3)] = [18, 19, 20, 30, 31, 32, 42, 43, 44] := by
+  decide +kernel
+
+/-- the seeded defect class: a z-line in a grid with ny ≠ nz; stride (nx+1)(ny+1) = 12, not (nx+1)(nz+1) = 15 -/
+example : findNodesOnLine 2 3 2 (idx3 2 3 (1, 2, 4)) (idx3 2 3 (1, 2, 1)) = [19, 31, 43, 55] := by decide +kernel
+
+/-! ### node splitting (`split_nodes` / `duplicate_nodes`) -/
+
+/-- `node_components`: when the label propagation has converged (checked by the model; always the
+    case in the correspondence runs), two cells around a node carry the same label iff they are
+    connected through shared (unsplit) faces; every label is one of the representatives `roots`,
+    which are pairwise different cells labelled by themselves: the node gets exactly one copy per
+    connected component of its cell neighbourhood. -/
+theorem node_components (g : NodeGrid) (n : Nat)
+    (hs : g.stable (g.cluster n) (g.labels (g.cluster n)) = true) :
+    (∀ a b, a ∈ g.cluster n → b ∈ g.cluster n →
+        (g.labels (g.cluster n) a = g.labels (g.cluster n) b ↔ Conn g (g.cluster n) a b)) ∧
+    (∀ a, a ∈ g.cluster n → g.labels (g.cluster n) a ∈ roots (g.cluster n) (g.labels (g.cluster n))) ∧
+    (roots (g.cluster n) (g.labels (g.cluster n))).Nodup ∧
+    (∀ r, r ∈ roots (g.cluster n) (g.labels (g.cluster n)) → r ∈ g.cluster n ∧ g.labels (g.cluster n) r = r) := by
+  have hg := good_labels g (g.cluster n)
+  refine ⟨fun a b ha hb => label_eq_iff_conn hg hs ha hb, fun a ha => label_mem_roots hg hs ha,
+    nodup_roots _ (nodup_cluster g n), ?_⟩
+  intro r hr
+  unfold roots at hr
+  rw [List.mem_filter] at hr
+  exact ⟨hr.1, by simpa using hr.2⟩
+
+/-- `split_nodes_count`: `duplicate_nodes` adds (number of components − 1) nodes per split node,
+    and every face keeps its number of nodes (only the stored indices are rewritten). -/
+theorem split_nodes_count (g : NodeGrid) (split : List Nat) (r : NodeOut) (h : g.duplicateNodes split = some r) :
+    r.nN = g.nN + ((split.map (fun n => (roots (g.cluster n) (g.labels (g.cluster n))).length - 1)).foldl (· + ·) 0) ∧
+    (∀ f, (r.faceNodes f).length = (g.faceNodes f).length) ∧
+    (∀ n, n ∈ split → g.stable (g.cluster n) (g.labels (g.cluster n)) = true) := by
+  obtain ⟨h1, h2, h3⟩ := duplicateNodes_some h
+  exact ⟨h2, fun f => by rw [h3 f, List.length_map], h1⟩
+
+/-- `node_copy_of_cell`: in every face `f` of a cell `c` around a split node `n`, the node is replaced
+    by its copy number `rank(c)` = position of the component of `c` among the components ordered by
+    their smallest cell; unsplit nodes are only shifted by the copies inserted before them. -/
+theorem node_copy_of_cell (g : NodeGrid) (split : List Nat) (r : NodeOut) (h : g.duplicateNodes split = some r) (f : Nat) :
+    ∃ φ : Nat → Nat, r.faceNodes f = (g.faceNodes f).map φ ∧
+      (∀ m, m ∉ split → φ m = m + incBefore (split.map (fun m => (m, g.info m))) m) ∧
+      (∀ n c, n ∈ split → c ∈ g.cluster n → f ∈ g.cellFaces c →
+        φ n = n + (roots (g.cluster n) (g.labels (g.cluster n))).idxOf (g.labels (g.cluster n) c)
+              + incBefore (split.map (fun m => (m, g.info m))) n) := by
+  obtain ⟨h1, _, h3⟩ := duplicateNodes_some h
+  refine ⟨_, h3 f, ?_, ?_⟩
+  · intro m hm; simp only [if_neg hm, Nat.add_zero]
+  · intro n c hn hc hf
+    simp only [if_pos hn]
+    rw [offset_eq_rank (h1 n hn) hc hf]
+
+/-- the 2 × 2 grid with the X of `exX` after the face split: the centre node 4 is split into four, the
+    fracture end nodes 1, 3, 5, 7 on the boundary into two -/
+def exNodes : NodeGrid :=
+  { nN := 9, nC := 4,
+    faceNodes := fun f => ([[0, 3], [1, 4], [2, 5], [3, 6], [4, 7], [5, 8], [0, 1], [1, 2], [3, 4], [4, 5], [6, 7], [7, 8],
+      [3, 4], [4, 5], [1, 4], [4, 7]] : List (List Nat)).getD f [],
+    cellFaces := fun c => ([[0, 6, 12, 14], [1, 2, 7, 13], [3, 8, 10, 15], [4, 5, 9, 11]] : List (List Nat)).getD c [] }
+
+example : (exNodes.duplicateNodes [1, 3, 4, 5, 7]).map (fun r => (r.nN, (List.range 16).map r.faceNodes, r.newToOld)) = some
+    (16, [[0, 4], [2, 7], [3, 10], [5, 12], [9, 14], [11, 15], [0, 1], [2, 3], [5, 8], [9, 11], [12, 13], [14, 15], [4, 6],
+          [7, 10], [1, 6], [8, 13]], [0, 1, 1, 2, 3, 3, 4, 4, 4, 4, 5, 5, 6, 7, 7, 8]) := by
+  decide +kernel
+
+example : roots (exNodes.cluster 4) (exNodes.labels (exNodes.cluster 4)) = [0, 1, 2, 3] ∧
+    exNodes.stable (exNodes.cluster 4) (exNodes.labels (exNodes.cluster 4)) = true := by
+  decide +kernel
+
 /-! ### non-vacuity: concrete inputs satisfying every hypothesis -/
 
 /-- 2 × 2 Cartesian grid (cells 0..3; x-faces 0..5, y-faces 6..11, PorePy numbering and signs) with a
